@@ -21,30 +21,30 @@ Definition router_key (ip : list Z) : option (Z * Z) :=
 Definition is_target (ip : list Z) : bool :=
   list_eqb Z.eqb ip [127; 0; 0; 1] || list_eqb Z.eqb ip [0; 0; 0; 0; 0; 0; 0; 0; 0; 0; 0; 0; 0; 0; 0; 1].
 
-Definition d_shop (s : sx) : option (Z * list Z * bool * bool) :=
+Definition d_shop (s : sx) : option (Z * list Z * bool * bool * Z) :=
   match s with
-  | L [A t; ip; A d; A neg] => match sx_bytes ip with Some b => Some (t, b, negb (d =? 0), negb (neg =? 0)) | None => None end
+  | L [A t; ip; A d; A neg; A rtt] => match sx_bytes ip with Some b => Some (t, b, negb (d =? 0), negb (neg =? 0), rtt) | None => None end
   | _ => None
   end.
 
 Definition d_srun_in (s : sx) : option (Z * bool * Z * Z * Z) :=
   match s with L [A proto; A v6; A last; A start; A grp] => Some (proto, negb (v6 =? 0), last, start, grp) | _ => None end.
 
-Definition d_srun_out (s : sx) : option (Z * list (Z * list Z * bool * bool)) :=
+Definition d_srun_out (s : sx) : option (Z * list (Z * list Z * bool * bool * Z)) :=
   match s with
   | L [A status; L hops] => match dec_list d_shop hops with Some h => Some (status, h) | None => None end
   | _ => None
   end.
 
-Fixpoint first_key (hops : list (Z * list Z * bool * bool)) : option Z :=
+Fixpoint first_key (hops : list (Z * list Z * bool * bool * Z)) : option Z :=
   match hops with
   | [] => None
-  | (_, ip, _, _) :: r => match router_key ip with Some (key, _) => Some key | None => first_key r end
+  | (_, ip, _, _, _) :: r => match router_key ip with Some (key, _) => Some key | None => first_key r end
   end.
 
-Definition shop_ok (key n : Z) (e : Z * option Z * bool) (o : Z * list Z * bool * bool) : bool :=
+Definition shop_ok (key n : Z) (e : Z * option Z * bool) (o : Z * list Z * bool * bool * Z) : bool :=
   match e, o with
-  | (t, who, d), (t', ip, d', neg) =>
+  | (t, who, d), (t', ip, d', neg, _) =>
       (t =? t') && Bool.eqb d d' && negb neg
       && match who with
          | None => match ip with [] => true | _ => false end
@@ -53,23 +53,29 @@ Definition shop_ok (key n : Z) (e : Z * option Z * bool) (o : Z * list Z * bool 
          end
   end.
 
-Fixpoint all2s (key n : Z) (a : list (Z * option Z * bool)) (b : list (Z * list Z * bool * bool)) : bool :=
+Fixpoint all2s (key n : Z) (a : list (Z * option Z * bool)) (b : list (Z * list Z * bool * bool * Z)) : bool :=
   match a, b with
   | [], [] => true
   | x :: a', y :: b' => shop_ok key n x y && all2s key n a' b'
   | _, _ => false
   end.
 
-(** 0 ok; 1 foreign router among the hops; 4 not the solo result *)
-Definition srun_verdict (i : Z * bool * Z * Z * Z) (o : Z * list (Z * list Z * bool * bool)) : Z * option Z :=
+(** the network answers the probe of flow [key] with TTL t after exactly (2 + key mod 7 + t) ms; a duplicate follows
+    3 ms later.  Under the virtual clock the RTT of a hop is therefore exactly that of the FIRST reply. *)
+Definition rtts_ok (key : Z) (hops : list (Z * list Z * bool * bool * Z)) : bool :=
+  forallb (fun h => match h with (t, ip, _, _, rtt) => match ip with [] => true | _ => rtt =? 1000 * (2 + key mod 7 + t) end end) hops.
+
+(** 0 ok; 1 foreign router among the hops; 4 not the solo result; 5 hop RTT is not send -> first reply *)
+Definition srun_verdict (i : Z * bool * Z * Z * Z) (o : Z * list (Z * list Z * bool * bool * Z)) : Z * option Z :=
   match i, o with
   | (proto, v6, last, _, _), (status, hops) =>
       match first_key hops with
       | None => (4, None)
       | Some key =>
           let pa := shared_path key in
-          if (status =? 0) && all2s key (pa_n pa) (predicted pa 1 last) hops then (0, Some (key + 65536 * (proto + 4 * (if v6 then 1 else 0))))
-          else if existsb (fun h => match h with (_, ip, _, _) => match router_key ip with Some (k', _) => negb (k' =? key) | None => false end end) hops
+          if (status =? 0) && all2s key (pa_n pa) (predicted pa 1 last) hops then
+            ((if rtts_ok key hops then 0 else 5), Some (key + 65536 * (proto + 4 * (if v6 then 1 else 0))))
+          else if existsb (fun h => match h with (_, ip, _, _, _) => match router_key ip with Some (k', _) => negb (k' =? key) | None => false end end) hops
                then (1, Some key) else (4, Some key)
       end
   end.
@@ -84,8 +90,9 @@ Definition check_shared (prop : Z) (inp impl : sx) : sx :=
           let cls := 1 + 2 * Z.min 7 (Z.of_nat (length rin)) + (if filt =? 0 then 0 else 16) in
           if negb (Nat.eqb (length rin) (length rout)) then badcase else
           let vs := map (fun io => srun_verdict (fst io) (snd io)) (combine rin rout) in
-          if existsb (fun v => fst v =? 1) vs then verdict V_SPECFAIL cls [11; 1] (L (map (fun v => A (fst v)) vs))
-          else if existsb (fun v => fst v =? 4) vs then verdict V_SPECFAIL cls [11; 4] (L (map (fun v => A (fst v)) vs))
+          if existsb (fun v => fst v =? 1) vs then verdict V_SPECFAIL cls (if prop =? 11 then [11; 1] else [1; 2]) (L (map (fun v => A (fst v)) vs))
+          else if existsb (fun v => fst v =? 4) vs then verdict V_SPECFAIL cls (if prop =? 11 then [11; 4] else [2; 3]) (L (map (fun v => A (fst v)) vs))
+          else if (prop =? 5) && existsb (fun v => fst v =? 5) vs then verdict V_SPECFAIL cls [5; 2] (L (map (fun v => A (fst v)) vs))
           else if negb (nodupz (flat_map (fun v => match snd v with Some k => [k] | None => [] end) vs)) then verdict V_SPECFAIL cls [11; 5] (L [])
           else verdict V_OK cls [] (L [])
       | _, _ => badcase
